@@ -771,7 +771,7 @@ func c32Check(before, after map[uint32]*c32Loc, assigned map[uint32]bool, entere
 					// time of trashing), so a shard that arrives with an mtime
 					// before now is deleted before it has been there for 24h.
 					for _, t := range a.Trash {
-						if os.Getenv("C32_TMP_NOMT") == "" && t.Base == f.Base && t.Hash == f.Hash && t.MTime.Before(now) {
+						if t.Base == f.Base && t.Hash == f.Hash && t.MTime.Before(now) {
 							return nil, false, kit.Fail("trash-entry-backdated", "%s: shard %s was moved to the trash at %s but carries mtime %s: it will be deleted permanently %s before it has been in the trash for 24h", ctx, f.Base, now.Format(time.RFC3339), t.MTime.Format(time.RFC3339), now.Sub(t.MTime))
 						}
 					}
@@ -892,6 +892,18 @@ func runC32(rec *kit.Recorder, c c32Case) error {
 	if len(c.Compound) > 0 {
 		layout = "layout:with-compound"
 	}
+	// claim attributes a discrepancy to one of the two recorded classes of
+	// directories outside the default generator (both off by default).
+	claim := func(err error) error {
+		if d, ok := err.(*kit.Discrepancy); ok && clash {
+			d.Known = c32KnownNameReuse
+			d.Detail += " [two repository ids share a shard file name in this directory]"
+		} else if ok && prefixed {
+			d.Known = c32KnownCompoundPrefix
+			d.Detail += " [a repository name in this directory starts with \"compound-\": its simple shards are taken for compound shards]"
+		}
+		return err
+	}
 	var styleLabels []string
 	for l := range styles {
 		styleLabels = append(styleLabels, l)
@@ -917,18 +929,11 @@ func runC32(rec *kit.Recorder, c c32Case) error {
 		cleanup(dir, r.Assigned, now, c.ShardMerging)
 		after, err := c32Inventory(dir)
 		if err != nil {
-			return kit.Fail("unreadable", "after round %d: %v", i, err)
+			return claim(kit.Fail("unreadable", "after round %d: %v", i, err))
 		}
 		labels, nt, err := c32Check(before, after, assigned, entered, now, i)
 		if err != nil {
-			if d, ok := err.(*kit.Discrepancy); ok && clash {
-				d.Known = c32KnownNameReuse
-				d.Detail += " [two repository ids share a shard file name in this directory]"
-			} else if ok && prefixed {
-				d.Known = c32KnownCompoundPrefix
-				d.Detail += " [a repository name in this directory starts with \"compound-\"]"
-			}
-			return err
+			return claim(err)
 		}
 		entered = c32Entered(entered, before, after, now)
 		labels = append(labels, styleLabels...)
@@ -972,9 +977,12 @@ func c32NameClash(c *c32Case) bool {
 
 func TestVerif_C32(t *testing.T) {
 	rec := kit.Open(t, "C32",
-		"rapid-generated index directories over 7 repository ids: per repository absent / 1-2 simple shards / renamed (two names) / left to compound shards, a trash entry (1-2 shards, ages 5min..47h, exactly 24h, +-1min, future-dated, two names), 0-4 pre-built compound shards with per-member tombstones (only with shard merging on), temp files; x 1-3 rounds of (assigned subset, clock advance 0..49h). A case = (directory history, round); non-trivial = in that round an assigned repository is restored (from trash or by removing a tombstone) and an unassigned one is tombstoned in a compound shard; distinct by hash of case+round",
+		"rapid-generated index directories over 7 repository ids: per repository a name (half plain r<id>, half look-alikes: host/path names escaped in the shard file name, names containing \"compound-\" after the first character, names starting with \"compound\" / \"compound_\", names containing \"_v16\", \".zoekt\" or a whole shard-file suffix), absent / 1-2 simple shards / renamed (two names) / left to compound shards, index shards last written 1min..3 days ago (40% more than 24h: mtimes of the shards themselves), a trash entry (1-2 shards, ages 5min..47h, exactly 24h, +-1min, future-dated, two names), 0-4 pre-built compound shards with per-member tombstones (only with shard merging on), temp files; x 1-3 rounds of (assigned subset, clock advance 0..49h). A case = (directory history, round); non-trivial = in that round an assigned repository is restored (from trash or by removing a tombstone) and an unassigned one is tombstoned in a compound shard; distinct by hash of case+round",
 		"input domain: compound shards only together with shard merging; a repository is alive in at most one compound shard; alive in a compound and in simple shards at once only in the 25% of directories modelling a crash between writing new shards and tombstoning the old copy; one repository id per name",
 		"the trash is judged per repository as cleanup_test.go documents: a repository's trash entry is old as soon as one of its shards is older than 24h (strictly)",
+		"'older than 24 hours' = in the trash for 24 hours (cleanup's doc comment): entries present from the start are dated by their mtime, entries trashed by an earlier round by the harness's own record of that round's now; a shard moved to the trash must carry an mtime not before that round's now (cleanup_test.go expects exactly now), since the mtime is what the next cleanup judges",
+		"repository names starting with \"compound-\" are excluded (VERIF_C32_COMPOUND_PREFIX=1 includes them): their simple shards are named compound-..._v16.00000.zoekt and cleanup.go takes them for compound shards",
+		"compound shards are recognised in the inventory by format version / member count, not by file name",
 		"repositories whose alive shards disagree on the name may be deleted outright whether assigned or not (documented in cleanup.go)",
 		"an assigned repository that is only present as an old (>24h) trash entry need not be restored; a tombstoned assigned repository must be revived (cleanup.go: 'Restore deleted or tombstoned repos')",
 		"time is the `now` argument of cleanup and explicit mtimes; no wall clock",
